@@ -145,8 +145,8 @@ func randVal(r *rand.Rand, depth, maxStr int) Val {
 // names, int64 extremes, all sorts of finite float64, nesting.
 func randomCases(ctx *core.Ctx) []*fmtCase {
 	r := ctx.Rand("values")
-	n := ctx.Pick(4000, 40000)
-	maxStr := ctx.Pick(300, 1500)
+	n := ctx.Pick(4000, 20000)
+	maxStr := ctx.Pick(300, 800)
 	out := make([]*fmtCase, 0, n)
 	for i := 0; i < n; i++ {
 		k := 1 + r.Intn(4)
